@@ -152,6 +152,9 @@ class ContentElement:
       if self.parent() is not None:
         raise RuntimeError("Element must be removed from parent first")
 
+      if self._doc is not None and self._doc.get_body() is self:
+        raise RuntimeError("The body of a document must be unset from the document first")
+
       # detach the element and all its descendants
 
       # pylint: disable=W0212
